@@ -626,6 +626,23 @@ func extraC12(col *Collector, r *RNG, tier string) {
 		}
 		runCases(col, theDriver, cs)
 		col.extraCounts["zone-"+z] += len(cs)
+		// the keep-then-compare runs for TIMESTAMP / TIMESTAMP2 (their cases need this zone's offsets, so they are not in
+		// genC12's pool): cells of one fractional precision back to back, siblings sharing the second
+		retainedCells(col, r, tier, func(rr *RNG, _ string) []Case {
+			var out []Case
+			for i := 0; i < 140; i++ {
+				s := uint32(rr.U64())
+				if i%10 == 0 {
+					s = []uint32{1, 86399, 1583020800, 2147483647, 2147483648, 4294967295}[rr.Intn(6)]
+				}
+				fsp := i % 7
+				out = append(out, cellCase(cellSpec{t: 17, md: fsp, v: fmt.Sprintf("ts2:%d:%d", s, rr.Intn(pow10[fsp])), ext: tzext(s), rest: rr.Bytes(rr.Intn(2))}, "retained-ts2", true))
+				if i%7 == 0 {
+					out = append(out, cellCase(cellSpec{t: 7, v: fmt.Sprintf("ts:%d", s), ext: tzext(s)}, "retained-ts", true))
+				}
+			}
+			return out
+		})
 	}
 }
 
